@@ -28,7 +28,8 @@ JudgeFen(e) ==
   \cup Chk("c19.fen-neither-error-nor-value", e.outcome # "nil")
   \cup (IF e.outcome = "value"
         THEN Chk("c19.fen-inconsistent-value", e.val.consistent = 1)
-             \cup Chk("c19.fen-reencode-differs", e.val.dec2.ok /\ e.val.dec2.pos = e.val.pos /\ e.val.dec2.np = e.val.np /\ e.val.dec2.fm = e.val.fm)
+             \cup Chk("c19.fen-reencode-differs", e.val.dec2.ok /\ e.val.dec2.pos = e.val.pos /\ e.val.dec2.np = e.val.np /\ e.val.dec2.fm = e.val.fm
+                                                 /\ e.val.dec2.moves = e.val.moves)
         ELSE {}))
   \cup (IF can /\ Want("C14")
         THEN Chk("c14.canonical-rejected", e.outcome = "value")
